@@ -48,7 +48,7 @@ class C14(core.Prop):
     def _variants(self, case):
         p = list(case['examples'])
         random.Random(case.get('perm_seed', 0) + 1).shuffle(p)
-        return [(case['examples'], 'list'), (p, 'list'), (case['examples'], 'dict')]
+        return [(case['examples'], 'list'), (p, 'list'), (case['examples'], 'dict'), (case['examples'], 'dict0')]
 
     def _recorded(self, case):
         key = json.dumps(case, sort_keys=True)
